@@ -976,7 +976,11 @@ pub fn generate(rng: &mut Rng, tier: Tier, emit: &mut dyn FnMut(String)) {
         }
         if i % per == 0 && slow_left > 0 {
             let race = slow_left % ((n_pool + n_race) / n_race.max(1)).max(1) == 0;
-            emit_pool(rng, emit, race);
+            if !race && slow_left % 20 == 7 {
+                emit_bucket_order(rng, emit);
+            } else {
+                emit_pool(rng, emit, race);
+            }
             slow_left -= 1;
         }
     }
@@ -987,6 +991,40 @@ pub fn generate(rng: &mut Rng, tier: Tier, emit: &mut dyn FnMut(String)) {
         emit_pool(rng, emit, slow_left % 4 == 0);
         slow_left -= 1;
     }
+}
+
+/// In-bucket order of an unsharded pool (`Vec::swap_remove` in `remove_connection`, `push` on refill): under
+/// PerHost(3..4), with staggered handshakes (`H<n>s`: connection j of the node = connection j of the pool), one or two
+/// connections are killed and replaced, then two or three survivors fail the SAME `USE` in different ways: which error the
+/// call reports is the one of the connection that comes first in the bucket.
+fn emit_bucket_order(rng: &mut Rng, emit: &mut dyn FnMut(String)) {
+    let n = rng.range(3, 4) as usize;
+    let sc = pick_names(rng, 2, false);
+    let mut live: Vec<usize> = (0..n).collect();
+    let mut next = n;
+    let mut steps: Vec<String> = vec!["W".into(), "U0".into()];
+    for _ in 0..rng.range(1, 2) {
+        let j = live.remove(rng.below(live.len() as u64) as usize);
+        steps.push(format!("Kc{}", j));
+        steps.push("W".into());
+        live.push(next);
+        next += 1;
+    }
+    for _ in 0..rng.range(1, 2) {
+        let mut ids = live.clone();
+        rng.shuffle(&mut ids);
+        let mut kinds = vec!["R", "M", "V"];
+        rng.shuffle(&mut kinds);
+        for (id, kind) in ids.iter().zip(kinds.iter()).take(rng.range(2, 3) as usize) {
+            steps.push(format!("{}1,c{}", kind, id));
+        }
+        steps.push("U1".into());
+        steps.push("X".into());
+    }
+    steps.push("U1".into());
+    steps.push("Q0".into());
+    steps.push("L".into());
+    emit(format!("pool H{}s - {} {}", n, names_field(&sc.names), steps.join(";")));
 }
 
 // ---------------------------------------------------------------------------------------------
